@@ -24,7 +24,7 @@ SNext ==
   /\ IF Ev.ev = "reset"
      THEN /\ Ev.mode = "seq"
           /\ bad # "" => PrintT(<<"REJECT", tid, badl, bad>>)
-          /\ PReset(Ev.mode, Ev.backend, Ev.alist, Ev.adel, Ev.tags0, Ev.amb0, Ev.mans0, Ev.fallback, Ev.withman, Ev.subj)
+          /\ PReset(Ev.mode, Ev.backend, Ev.alist, Ev.adel, Ev.tags0, Ev.amb0, Ev.mans0, Ev.fallback, Ev.withman, Ev.subj, Ev.mdelok)
           /\ tid' = Ev.trace /\ badl' = 0
      ELSE IF bad # "" THEN UNCHANGED <<pvars, tid, badl>>
      ELSE /\ Act
